@@ -363,19 +363,37 @@ def rule_C1(ctx):
     for fname in ("run._run_main_sampler", "run._run_burnin"):
         f = prog.fn(fname)
         local_cls = {}
+
+        def fields_of(v):
+            """Holder fields an expression can denote: `samplers.x`, or `samplers.x if c else samplers.y`."""
+            if isinstance(v, ast.Attribute) and u(v.value) == "samplers":
+                return [v.attr]
+            if isinstance(v, ast.IfExp):
+                a, b = fields_of(v.body), fields_of(v.orelse)
+                return a + b if a and b else []
+            return []
+
         for st in ast.walk(f.node):
-            if isinstance(st, ast.Assign) and isinstance(st.targets[0], ast.Name) and isinstance(st.value, ast.Attribute) and u(st.value.value) == "samplers":
-                local_cls[st.targets[0].id] = field_cls.get(st.value.attr)
+            if isinstance(st, ast.Assign) and isinstance(st.targets[0], ast.Name):
+                fs = fields_of(st.value)
+                if fs:
+                    local_cls.setdefault(st.targets[0].id, [])
+                    local_cls[st.targets[0].id] += [field_cls.get(x) for x in fs]
         pm = {}
         for p in ast.walk(f.node):
             for c in ast.iter_child_nodes(p):
                 pm[id(c)] = p
+        sites = []
         for c in calls(f.node, last="sample_tree"):
             recv = u(c.func.value)
-            cname = local_cls.get(recv)
-            ci = prog.resolve_class(cname, runmod) if cname else None
-            if ci is None:
+            cnames = local_cls.get(recv)
+            if cnames is None and isinstance(c.func.value, ast.Attribute) and u(c.func.value.value) == "samplers":
+                cnames = [field_cls.get(c.func.value.attr)]  # samplers.x.sample_tree(tree), without a local alias
+            cis = [prog.resolve_class(cn, runmod) if cn else None for cn in (cnames or [None])]
+            if any(ci is None for ci in cis):
                 raise AnalysisError("cannot resolve the class of sampler %r in %s" % (recv, f.qualname))
+            sites += [(c, recv, ci) for ci in cis]
+        for c, recv, ci in sites:
             m = prog.method(ci, "sample_tree")
             param = m.params[1]
             edits = sorted({x.func.attr for x in ast.walk(m.node) if isinstance(x, ast.Call) and isinstance(x.func, ast.Attribute) and u(x.func.value) == param and x.func.attr in MUTATING_TREE_CALLS})
